@@ -940,6 +940,9 @@ class Cluster:
                 return R(err) if v == 0 else R(0, err)
             if k == 8:
                 return R(g.commit(req))
+            d = getattr(self, "offset_fetch_delay", 0.0)
+            if d:
+                await asyncio.sleep(d)  # slow coordinator: the OffsetFetch stays in flight
             return R(g.fetch_offsets(req))
         raise AssertionError(f"simkafka: unhandled api key {k}")
 
